@@ -383,3 +383,19 @@ def goal_lts(engine, module, cfg, view, path, workers=8, timeout=900):
             f.write(json.dumps([[a[v] for v in view], b["last"], [b[v] for v in view], k + 1]) + "\n")
     return r, len(states) - 1
 
+
+def apalache(engine, module, args, timeout=600):
+    """Run apalache-mc check on specs/<engine>/<module>.tla in a scratch copy; returns (ok, error_found, tail)."""
+    src = os.path.join(SPECS, engine)
+    work = tempfile.mkdtemp(prefix="apa-%s-" % module, dir=OUT)
+    try:
+        for fn in os.listdir(src):
+            if fn.endswith(".tla"):
+                shutil.copy(os.path.join(src, fn), work)
+        cmd = ["timeout", str(int(timeout)), "apalache-mc", "check"] + list(args) + [module + ".tla"]
+        p = subprocess.run(cmd, cwd=work, stdout=subprocess.PIPE, stderr=subprocess.STDOUT, text=True)
+        out = p.stdout[-3000:]
+        return ("The outcome is: NoError" in out, "Checker has found an error" in out, out)
+    finally:
+        shutil.rmtree(work, ignore_errors=True)
+
